@@ -419,9 +419,11 @@ def check_barriers_all_modes(rep, prog):
     import ast as _ast
     from .. import effects as _eff
     nconv = 0
+    nadd = 0
     for cs in _eff.call_sites(prog):
         if not (isinstance(cs.node.func, _ast.Attribute) and cs.node.func.attr == "add_argument"):
             continue
+        nadd += 1
         for kw in cs.node.keywords:
             if kw.arg not in ("type", "action") or not isinstance(kw.value, (_ast.Name, _ast.Lambda, _ast.Attribute)):
                 continue
@@ -447,6 +449,7 @@ def check_barriers_all_modes(rep, prog):
                           kw.arg, _ast.unparse(kw.value)[:40], _ast.unparse(looks[0])[:60] if looks else ""),
                       node=looks[0] if looks else cs.node, file=cs.module.rel)
     rep.count("repository callables used as option converters", nconv)
+    rep.floor("add_argument call sites scanned", nadd, 20)
     return fm
 
 
